@@ -96,6 +96,10 @@ Proof. exact t3_leaves_no_artefact_vertex_in_a_cell. Qed.
 (* the last pass (removal of isolated cells, with the iteration over a list that shrinks under the iterator modelled as it runs) invents no cell *)
 Theorem C15_removal_of_isolated_cells_invents_no_cell : forall m, incl (map fst (mcells (remove_isolated m))) (map fst (mcells m)).
 Proof. exact remove_isolated_invents_no_cell. Qed.
+(* the inner-triangle pass (interfaces that share both ends; modelled with collections.Counter's first-occurrence order, numpy's setdiff1d and the
+   iteration over a list that shrinks under the iterator) loses no cell *)
+Theorem C15_inner_triangle_pass_keeps_every_cell : forall m, incl (map fst (mcells m)) (map fst (mcells (inner_triangles m))).
+Proof. exact inner_triangles_keep_every_cell. Qed.
 (* non-vacuity: a triangle 1-2-3 between the cells 10, 11, 12 with one outgoing mesh edge per corner is contracted to vertex 7 *)
 Example C15_contraction_example :
   let m := mkM [1; 2; 3; 4; 5; 6] [(1, [0; 2; 3]); (2, [0; 1; 4]); (3, [1; 2; 5]); (4, [3]); (5, [4]); (6, [5])]
@@ -131,3 +135,4 @@ Print Assumptions C15_cell_cycle_after_replacement.
 Print Assumptions C15_artefacts_consist_of_artefact_vertices.
 Print Assumptions C15_contraction_leaves_no_artefact_vertex_in_a_cell.
 Print Assumptions C15_removal_of_isolated_cells_invents_no_cell.
+Print Assumptions C15_inner_triangle_pass_keeps_every_cell.
